@@ -337,6 +337,7 @@ type xctx struct {
 	idxMemo map[*ast.IndexExpr]string
 	aliases map[types.Object]ast.Expr   // local pointer variables bound to `&lvalue`: compile-time aliases
 	views   map[types.Object]*sliceView // local slices bound to `base[lo:hi]`: views into the base slice
+	aliasDeps map[types.Object]bool    // variables occurring in the index of a live alias: must not be reassigned
 	natVars []string                    // immutable Nat variables (view bounds) that loops must receive as parameters
 	pre     []func(string) string
 	depth   int
@@ -983,6 +984,9 @@ func (c *xctx) assignTo(e ast.Expr, val string) string {
 		return ""
 	}
 	o, p := c.path(e)
+	if len(p) == 0 && c.aliasDeps[o] {
+		c.x.fail(e, "variable %s is used in the index of a live pointer alias and reassigned", o.Name())
+	}
 	root := c.name(o)
 	return fmt.Sprintf("let %s := %s", root, withPath(root, p, val))
 }
@@ -1333,8 +1337,13 @@ func (c *xctx) stmts(ss []ast.Stmt, k kont) string {
 		c.pre = nil
 		c.depth++
 		scopeLen := len(c.scope) // variables declared inside one branch are not in scope in the other
+		savedDeps := map[types.Object]bool{}
+		for k0, v0 := range c.aliasDeps {
+			savedDeps[k0] = v0
+		}
 		thenCode := c.stmts(v.Body.List, kont{fall: rest, brk: k.brk, cont: k.cont})
 		c.scope = c.scope[:scopeLen]
+		c.aliasDeps = savedDeps // aliases created in the then-branch (or in the code after the if, generated inside it) are not live in the else-branch
 		var elseCode string
 		switch el := v.Else.(type) {
 		case nil:
@@ -1395,8 +1404,13 @@ func (c *xctx) stmts(ss []ast.Stmt, k kont) string {
 			}
 			c.depth++
 			scopeLen := len(c.scope)
+			savedDeps := map[types.Object]bool{}
+			for k0, v0 := range c.aliasDeps {
+				savedDeps[k0] = v0
+			}
 			th := c.stmts(clauses[i].Body, afterSwitch)
 			c.scope = c.scope[:scopeLen]
+			c.aliasDeps = savedDeps
 			el := build(i + 1)
 			c.depth--
 			return fmt.Sprintf("if %s then%s  %s%selse%s  %s", strings.Join(conds, " || "), c.ind(), th, c.ind(), c.ind(), el)
@@ -1550,6 +1564,20 @@ func (c *xctx) assign(v *ast.AssignStmt) string {
 						// `p := &lvalue`: a compile-time alias; the lvalue's indexes are evaluated (and range-checked) here
 						c.aliases[o] = ue.X
 						c.path(ue.X)
+						// the alias is re-evaluated at each use: sound only while the variables in its index keep their value
+						ast.Inspect(ue.X, func(n ast.Node) bool {
+							if ix, ok := n.(*ast.IndexExpr); ok {
+								ast.Inspect(ix.Index, func(m ast.Node) bool {
+									if id, ok := m.(*ast.Ident); ok {
+										if vo, ok := info.Uses[id].(*types.Var); ok {
+											c.aliasDeps[vo] = true
+										}
+									}
+									return true
+								})
+							}
+							return true
+						})
 						return ""
 					}
 				}
@@ -1786,7 +1814,7 @@ func (x *xl) translate(f *xfunc) (err error) {
 		}
 	}()
 	gen := func() string {
-		c := &xctx{x: x, f: f, names: map[types.Object]string{}, used: map[string]bool{"fuel": true}, idxMemo: map[*ast.IndexExpr]string{}, aliases: map[types.Object]ast.Expr{}, views: map[types.Object]*sliceView{}}
+		c := &xctx{x: x, f: f, names: map[types.Object]string{}, used: map[string]bool{"fuel": true}, idxMemo: map[*ast.IndexExpr]string{}, aliases: map[types.Object]ast.Expr{}, views: map[types.Object]*sliceView{}, aliasDeps: map[types.Object]bool{}}
 		f.nloops = 0
 		f.aux = nil
 		var params []string
